@@ -294,9 +294,71 @@ def oracle(log, ctx):
     replay_log(Driver, log, ctx)
 
 
+# ------------------------------------------------------------------ a reset function that hands out the same State object every time
+
+
+@st.composite
+def strat_cached(draw, tier):
+    from vgv import gen
+    space = draw(gen.space_s(must=('Floor', 'Wall')))
+    sd = draw(gen.state_s(space, min_hw=3, max_hw=6, valid=True, floor_weight=2))
+    comp = {'chain': ['move_agent', 'turn_agent'], 'rewards': [{'name': 'living_reward', 'reward': -1.0}], 'term': {'name': 'reach_exit'},
+            'obs': draw(st.sampled_from(['stochastic_raytracing', 'stochastic_raytracing', 'raytracing', 'partially_occluded'])), 'view': [draw(st.sampled_from([5, 7])), draw(st.sampled_from([5, 7]))]}
+    ops = draw(st.lists(st.sampled_from(['reset', 'reset', 'obs', 'obs', 'step0', 'step4', 'scribble']), min_size=4, max_size=14))
+    return {'space': space, 'state': sd, 'comp': comp, 'seed': draw(st.integers(0, 2**31)), 'ops': ['reset', 'obs', 'reset', 'obs'] + ops}
+
+
+def oracle_cached(case, ctx):
+    """fixed-start tasks: the reset function returns one State object it keeps (the environment never modifies it: steps work on
+    copies).  Such an environment must behave like a twin whose reset function builds a fresh, equal state every time."""
+    from vgv import envs, gen, model as M
+    from gym_gridverse.action import Action
+    from gym_gridverse.envs.gridworld import GridWorld
+    space, sd, comp = case['space'], case['state'], case['comp']
+    kept = objs.build_state(sd)
+    ref = envs.mk_env(space, M.shape(sd), comp, reset_state=sd)
+    E = GridWorld(ref.state_space, ref.action_space, ref.observation_space, lambda *, rng=None: kept, envs.mk_transition(comp['chain']),
+                  envs.mk_obs(comp['obs'], gen.view_area(*comp['view'])), envs.mk_rewards(comp['rewards']), envs.mk_term(comp['term']))
+    T = envs.mk_env(space, M.shape(sd), comp, reset_state=sd)
+    traces = []
+    for env in (E, T):
+        env.set_seed(case['seed'])
+        tr = []
+        started = False
+        for op in case['ops']:
+            if op == 'reset':
+                env.reset()
+                started = True
+                tr.append(['reset', objs.canon_state(env.state)])
+            elif not started:
+                continue
+            elif op == 'obs':
+                tr.append(['obs', objs.canon_state(env.observation)])
+            elif op == 'scribble':
+                o = env.observation                      # what a consumer does with the observation it was given
+                from gym_gridverse.grid_object import Wall
+                from gym_gridverse.geometry import Position
+                o.grid[Position(0, 0)] = Wall()
+            else:
+                a = [Action.MOVE_FORWARD, Action.TURN_LEFT, Action.TURN_RIGHT, Action.MOVE_LEFT, Action.MOVE_BACKWARD][int(op[4:])]
+                r, t = env.step(a)
+                tr.append(['step', float(r), bool(t), objs.canon_state(env.state)])
+        traces.append(tr)
+    if objs.canon_state(kept) != sd:
+        ctx.fail('the environment modified the State object its reset function keeps', {'kind': 'cached_reset'})
+    if traces[0] != traces[1]:
+        k = next(i for i, (x, y) in enumerate(zip(*traces)) if x != y)
+        ctx.fail(f'an environment whose reset function returns the same State object every time diverges from a twin whose reset function builds a fresh equal state '
+                 f'(observation function {comp["obs"]}; first difference at trace entry {k}: {traces[0][k][0]}; ops {case["ops"][:10]})', {'kind': 'cached_reset'})
+    ctx.ev.case(case, nt=True, classes=['obs:' + comp['obs'], 'reset_obs_reset'])
+
+
 CHECKS = [
     Check('shadow_machine', oracle, machine=machine, examples={'quick': 120, 'thorough': 400}, steps={'quick': 40, 'thorough': 60},
           shards={'quick': 8, 'thorough': 16},
           rule='rule-based machine (reset, step, rejected step outside a restricted action space, re-seeding, 1-3 observation reads, state read, outer state / observation reads with the returned arrays overwritten, representation swap) on perturbed shipped configurations vs. a functionally driven twin with the same seed',
           required=['read_before_and_after_change', 'mid_episode_reset', 'repeated_reads_stochastic', 'representation_swapped', 'reseeded', 'rejected_step_after_read_stochastic']),
+    Check('cached_reset_object', oracle_cached, strategy=strat_cached, examples={'quick': 150, 'thorough': 600}, shards={'quick': 2, 'thorough': 8},
+          rule='GridWorld whose reset function returns the same State object every time x op lists starting reset, read, reset, read (then resets, reads, steps, a consumer writing into the observation it was given): same trace as a twin with a fresh-state reset function and the same seed',
+          required=['obs:stochastic_raytracing', 'reset_obs_reset']),
 ]
